@@ -88,6 +88,15 @@ def main():
         print(sid, ok, what, flush=True)
     if any("C19" in r["what"] for r in results.values()):
         sh("%s harness/check.py C19 --no-evidence" % PY, cwd=VERIF)     # regenerate + rebuild the model from the clean tree
+    out_path = os.path.join(VERIF, "seeded", "REGRESSION.json")
+    if args and os.path.exists(out_path):
+        # a partial run (ids given) refreshes those entries of the last full run
+        try:
+            prev = json.load(open(out_path))["results"]
+            prev.update(results)
+            results = prev
+        except Exception:
+            pass
     bad = [s for s, r in results.items() if not r["still_reported"]]
     json.dump({"head": sh("git -C /repo rev-parse --short HEAD")[1].strip(), "n": len(results), "not_reported": bad, "results": results},
               open(os.path.join(VERIF, "seeded", "REGRESSION.json"), "w"), indent=1)
